@@ -460,6 +460,64 @@ func genCases(seed uint64, n int, thorough bool) []Case {
 		}
 	}
 
+	// exhaustive scope for SEVERAL directory ignores at once: directories whose
+	// names sort between a directory and the files beneath it ('-' and '.' are
+	// below '/'), a sibling that sorts after ('0'), nested ignored directories,
+	// the root; every set of one to three of these ignores (pairs also in the
+	// other order) x selections x trees.  Whether a name is ignored must be
+	// the disjunction over the entries, each taken alone.
+	ignFiles := []string{"a/b", "a/x", "a/z", "a-b/x", "a.b/x", "a0/x", "a/m/n/x", "a/m/x", "ax"}
+	ignDirs := []string{"a/", "a-b/", "a.b/", "a0/", "a/m/", "a/m/n/", "./"}
+	var ignSets [][]string
+	for i := range ignDirs {
+		ignSets = append(ignSets, []string{ignDirs[i]})
+		for j := i + 1; j < len(ignDirs); j++ {
+			ignSets = append(ignSets, []string{ignDirs[i], ignDirs[j]}, []string{ignDirs[j], ignDirs[i]})
+			for k := j + 1; k < len(ignDirs); k++ {
+				ignSets = append(ignSets, []string{ignDirs[i], ignDirs[j], ignDirs[k]})
+			}
+		}
+	}
+	var ignTrees [][]string
+	ignTrees = append(ignTrees, ignFiles)
+	for i := range ignFiles {
+		ignTrees = append(ignTrees, []string{ignFiles[i]})
+		if thorough {
+			for j := i + 1; j < len(ignFiles); j++ {
+				ignTrees = append(ignTrees, []string{ignFiles[i], ignFiles[j]})
+				for k := j + 1; k < len(ignFiles); k++ {
+					ignTrees = append(ignTrees, []string{ignFiles[i], ignFiles[j], ignFiles[k]})
+				}
+			}
+		}
+	}
+	itid := 250000
+	for ti, files := range ignTrees {
+		itid++
+		for _, pk := range []string{"", "pkg"} {
+			if pk != "" && ti != 0 {
+				continue // the package variant for the full tree only
+			}
+			var fl []string
+			for _, f := range files {
+				if pk != "" {
+					f = pk + "/" + f
+				}
+				fl = append(fl, f)
+			}
+			if pk != "" {
+				itid++
+			}
+			tree := treeEntries(fl)
+			for _, sel := range []string{"**", "a/**", "*/*"} {
+				for _, ig := range ignSets {
+					add(Case{Stream: "fileset-ign", Op: "fileset", P: pk, Tree: tree, TreeID: itid,
+						Rule: &Rule{Name: "fs", Files: []string{}, Select: []string{sel}, Ignore: ig}})
+				}
+			}
+		}
+	}
+
 	// symbolic links in the source tree: to a file inside, to a file outside the
 	// workspace, to a directory outside, dangling, to a directory inside.
 	linkBase := []string{"d/x", "d/y.txt", "d2/x", "a.txt", "p/q.txt"}
